@@ -1054,7 +1054,11 @@ impl Snapshot {
 }
 
 /// Manifest: tracks valid snapshots and WAL segments
+///
+/// Unknown keys are rejected: a damaged key would otherwise deserialize as an absent optional
+/// field (e.g. no `latest_snapshot`) and recovery would silently proceed without it.
 #[derive(Debug, Clone, Serialize, Deserialize)]
+#[serde(deny_unknown_fields)]
 pub struct Manifest {
     pub version: u32,
     pub latest_snapshot: Option<String>,
